@@ -423,7 +423,11 @@ class Engine:
         """use an optional value as its payload; None here is a TypeError in Python"""
         if isinstance(v, OptV):
             if not self.spec:
-                self.oblige("safe", z3.Not(v.isnone), "%s is not None" % what)
+                if self.in_try() or "TypeError" in self.raises_decl:
+                    if self.branch(v.isnone):
+                        raise PyRaise(ExcV(TypeError, ("NoneType operand",)))
+                else:
+                    self.oblige("safe", z3.Not(v.isnone), "%s is not None" % what)
             return v.val
         return v
 
@@ -561,6 +565,8 @@ class Engine:
         if isinstance(op, ast.Div):
             za, zb = zreal(a), zreal(b)
             self.nonzero(zb)
+            if self.nl_abstract and not z3.is_rational_value(z3.simplify(zb)):
+                return Sym(self._nl("div", za, zb), "real")
             return Sym(za / zb, "real")
         if isinstance(op, ast.Pow):
             return self.power(a, b)
@@ -573,8 +579,21 @@ class Engine:
         if isinstance(op, ast.Sub):
             return Sym(za - zb, nk)
         if isinstance(op, ast.Mult):
+            if self.nl_abstract and nk == "real" and not _is_numeral(za) and not _is_numeral(zb):
+                return Sym(self._nl("mul", za, zb), nk)
             return Sym(za * zb, nk)
         raise Unsupported("operator %s" % type(op).__name__)
+
+    nl_abstract = False
+
+    def _nl(self, name, a, b):
+        """non-linear real product / quotient as an uninterpreted symbol (a generalisation: anything proved with
+        the symbol uninterpreted holds for the real operation); products are commutative"""
+        f = z3.Function("nl_" + name, z3.RealSort(), z3.RealSort(), z3.RealSort())
+        a, b = z3.simplify(a), z3.simplify(b)
+        if name == "mul":
+            self.assume(f(a, b) == f(b, a))
+        return f(a, b)
 
     def conc_arith(self, op, a, b):
         import operator as O
@@ -873,6 +892,11 @@ class Engine:
             finally:
                 self.frames.pop()
         raise Unsupported("global %r" % (ent,))
+
+
+def _is_numeral(t):
+    t = z3.simplify(t)
+    return z3.is_rational_value(t) or z3.is_int_value(t) or z3.is_algebraic_value(t)
 
 
 class _Unbound:
